@@ -137,6 +137,12 @@ func ruleC18(w *World, r *Report) {
 			return
 		}
 		if path == "" {
+			// `return Conf{}, err` with a named result is a store of the zero value right before the return
+			if c, isC := st.Val.(*ssa.Const); isC && c.Value == nil {
+				if _, isRet := st.Block().Instrs[len(st.Block().Instrs)-1].(*ssa.Return); isRet {
+					return
+				}
+			}
 			r.bad("R18.2", ln, "the configuration is only refined field by field", w.Pos(st.Pos()), "the whole configuration is overwritten after decoding")
 			return
 		}
